@@ -455,7 +455,8 @@ class Recorder:
             key = (id(grid), matched_indices, syndrome_indices, tuple(sorted(kw.items())))
             if len(rec.calls) > before:
                 rec.memo[key] = rec.calls[-1]
-            rec.grid_calls.append({'syndrome_indices': syndrome_indices, 'result': res, 'gt': rec.memo.get(key)})
+            rec.grid_calls.append({'syndrome_indices': syndrome_indices, 'result': res, 'gt': rec.memo.get(key),
+                                   'matched': matched_indices, 'kw': dict(kw), 'fresh': len(rec.calls) > before})
             return res
 
         self.gt.mwpm = mwpm
@@ -880,6 +881,23 @@ def cmwpm_case(ctx, acc, rec, spec, dspec, e, s, exh):
              nontrivial=bool(np.any(s)), meta=meta, post=post_cmwpm)
     ctx.case('c02 planar.cmwpm.graph {} {} {}'.format(R, C, bits(s)), 'P={} D={}'.format(gPtxt, gDtxt),
              nontrivial=bool(np.any(s)), meta=meta, post=post_graph)
+    # the WEIGHTS of every graph a StepGrid.mwpm call of this decode handed to gt.mwpm == Model/StepGrid.lean distance over
+    # the background of that call (exact: only parameter sets whose products and sums are exact in binary64)
+    from qv import c02_stepgrid as SGm
+    for call in gc:
+        ckw = call.get('kw') or {}
+        fac, shp, alg = ckw.get('factor', 3), ckw.get('box_shape', 't'), ckw.get('distance_algorithm', 4)
+        matched = list(call.get('matched') or [])
+        if not call.get('fresh') or call.get('gt') is None:
+            continue
+        if fac not in (3, 2, 1, 0.5, 1.5) or len(matched) > 8 or shp not in 'trfl' or alg not in (1, 2, 4):
+            ctx.count('stepgrid.decode-weights', 'skipped: products not exact in binary64')
+            continue
+        pre = 'stepgrid dist {} {} {} {} {} {} {}'.format(R, C, SGm.fr(1), SGm.fr(fac), shp, SGm.pairs_w(matched), alg)
+        for (a, b), w in call['gt'][0]:
+            ctx.case(pre + ' {} {}'.format(SGm.idx_w(a.index), SGm.idx_w(b.index)), SGm.fr(w), nontrivial=False,
+                     meta=dict(meta, part='stepgrid-weights'))
+        ctx.count('stepgrid.decode-weights', 'graphs tied')
 
 
 def run_planar_cmwpm(ctx, acc, rec):
